@@ -15,11 +15,11 @@ claimed = {
    "Equal is the definition (C11 not claimed). Values behind pointers and typed containers are not generated. purego maphash makes a seed a replayable decision.",
    "deterministic simulation: hash seed and forced collisions as injected faults, map-order schedules; definition oracle via public Equal; hash-law check via generated helper"),
  "C13": ("exploration", "4 C13",
-   "Seeded deterministic simulation of k=2..6 virtual goroutines x <=4 operations over shared Resolved values, Schema trees, instances and ForOptions, in a plain build (12000 runs quick) and a -race build (2400 runs quick, spread over 64 short-lived processes): a seeded scheduler decides who runs at every operation boundary and plants pre-emptions inside operations; token hand-off is invisible to the race detector so the library's own unsynchronised accesses are reported; memo-table misses are injected and caches start cold or warm; a third of the runs hammer one shared value with one family of operations under dense pre-emption; yields also sit right after every deferred call. Oracles: no race report inside the library; every result equals the sequential reference computed on an independently built identical world; a sequential re-run after the join still matches.",
+   "Seeded deterministic simulation of k=2..6 virtual goroutines x <=4 operations over shared Resolved values, Schema trees, instances and ForOptions, in a plain build (12000 runs quick) and a -race build (2400 runs quick, spread over 64 short-lived processes): a seeded scheduler decides who runs at every operation boundary and plants pre-emptions inside operations; token hand-off is invisible to the race detector so the library's own unsynchronised accesses are reported; memo-table misses are injected and caches start cold or warm; a third of the runs hammer one shared value with one family of operations under dense pre-emption; yields also sit right after every deferred call, and statements that touch package-level state or call sync / sync/atomic are synchronisation points at which the scheduler pre-empts with a per-run probability. Process restarts are simulated as well: 3000 plain + 400 race-instrumented operating-system processes (quick) execute ONE run each, in which 2-5 goroutines make the first library calls of the process at once and the same calls are then repeated sequentially in the warm process. Oracles: no race report inside the library; every result equals the sequential reference computed on an independently built identical world; a sequential re-run after the join still matches.",
    "Race detector shadow memory is finite; sync.Pool/GC timing and library-spawned goroutines are outside the seam. Loader results are owned by the calling Resolve.",
-   "deterministic simulation: seeded virtual-goroutine scheduler (PCT-style pre-emption) + Go race detector + sequential-equivalence oracle"),
+   "deterministic simulation: seeded virtual-goroutine scheduler (PCT-style pre-emption, pre-emption at synchronisation points) + simulated process restarts (one cold process per run) + Go race detector + sequential-equivalence oracle"),
  "C15": ("exploration", "4 C15",
-   "Seeded deterministic simulation of ApplyDefaults as the one stateful operation: histories of 4-10 steps (apply R_j, apply again, client deletes/sets/replaces, client mutates a container an earlier application inserted, switch instance, Validate) over 1-3 schemas with defaults at depth <=3 and two instances, repeated under 4 map-order schedules. A relational checker written from the property text decides each application (present values untouched, only non-required declared properties inserted, value = declared default completed legitimately or a container holding >=1 declared default), plus idempotence, schedule independence, and the ValidateDefaults clause against per-subschema validation.",
+   "Seeded deterministic simulation of ApplyDefaults as the one stateful operation: histories of 4-10 steps (apply R_j, apply again, client deletes/sets/replaces, client mutates a container an earlier application inserted, switch instance, Validate, schema evolution: the Schema in use or a CloneSchemas copy is edited and resolved again) over 1-3 schemas with defaults at depth <=3 and two instances, repeated under 4 map-order schedules. A relational checker written from the property text decides each application (present values untouched, only non-required declared properties inserted, value = declared default completed legitimately or a container holding >=1 declared default), plus idempotence, schedule independence, and the ValidateDefaults clause against per-subschema validation.",
    "The checker demands legitimacy of what is inserted, not completeness. Canonical JSON instances held in an any through a pointer; typed holders not generated.",
    "deterministic simulation: call/mutation histories x seeded map-order schedules, relational before/after checker as oracle"),
  "C16": ("exploration", "4 C16",
